@@ -585,7 +585,13 @@ class StructuredGrid(Grid):
         def trans(data):
             """Transformation."""
             # could be optimized
-            return other.from_canonical(self.to_canonical(data))
+            if np.ndim(data) != len(self.data_shape) + 1:
+                return other.from_canonical(self.to_canonical(data))
+            # data with leading time axis: canonical data has additional axes last
+            if not self.axes_reversed:
+                data = np.moveaxis(data, 0, -1)
+            data = other.from_canonical(self.to_canonical(data))
+            return data if other.axes_reversed else np.moveaxis(data, -1, 0)
 
         # only use trans if grids are compatible but NOT equal
         return None if self == other else trans
